@@ -5,6 +5,7 @@ CONSTANTS
   Leaves = {"i"}
   KidsRoot = 2
   KidsRest = 2
+  Schemes = {"ord"}
   CodeFixes = {}
 INVARIANT RepairedRefinesH
 INVARIANT AsIsExplained
